@@ -428,6 +428,12 @@ SITES["C07"] += [
          atoms={"default": ("given", O), "isinstance(m, ListMetric)": ("isListMetric", B), "m.default": ("own", O)}),
 ]
 
+# three places the fourth seeding round pointed at
+SITES["C03"] += [dict(file="pipeline/common.py", cls=None, fn="topn_pipeline", mode="branch", select="predicts_ratings == 'raw'", lean="topnPredictsBranch",
+                      atoms={"predicts_ratings == 'raw'": ("isRaw", B), "predicts_ratings": ("predicts", O)})]
+SITES["C18"] += [dict(file="implicit.py", cls="BaseRec", fn="train", mode="assign", var="delegate", lean="implicitDelegate", atoms={"self._construct()": ("1", "const")})]
+SITES["C11"] += [dict(file="training.py", cls="TrainingOptions", fn="random_generator", mode="fn", lean="optionsGenerator", atoms={"random_generator(self.rng)": ("1", "const")})]
+
 # the runner's decisions (C02): what a request of a finished / running node yields, when an input or a dependency is reported missing or
 # ill-typed, when a dependency is required of its source, and when a component that is not required bails out
 _RUN = dict(file="pipeline/runner.py", cls="PipelineRunner")
